@@ -977,12 +977,14 @@ def stopsValid : List (ℚ × RGBA) → Prop
   | [s] => s.2.validPremul = true ∧ 0 ≤ s.1 ∧ s.1 ≤ 1
   | s :: t :: rest => (s.2.validPremul = true ∧ 0 ≤ s.1 ∧ s.1 ≤ 1) ∧ s.1 < t.1 ∧ stopsValid (t :: rest)
 
+omit [SqrtQ] in
 theorem stopsValid_head {s : ℚ × RGBA} {l : List (ℚ × RGBA)} (h : stopsValid (s :: l)) :
     s.2.validPremul = true ∧ 0 ≤ s.1 ∧ s.1 ≤ 1 := by
   cases l with
   | nil => exact h
   | cons t rest => exact h.1
 
+omit [SqrtQ] in
 theorem stopsValid_tail {s : ℚ × RGBA} {l : List (ℚ × RGBA)} (h : stopsValid (s :: l)) : stopsValid l := by
   cases l with
   | nil => trivial
@@ -1043,6 +1045,7 @@ theorem initGradient_of_collect (z : Renderer ℚ ℚ) (rgba : RGBA) (s0 s1 : St
   rw [h]
   rfl
 
+omit [SqrtQ] in
 theorem stopsValid_increasing : ∀ (stops : List (ℚ × RGBA)), stopsValid stops →
     increasing (specStops (stops.map toStop))
   | [], _ => trivial
